@@ -26,9 +26,17 @@ SCHEDULES = {
 
 def child_def(spec, idx):
     bt = rt.bt()
+    A = bt.algos
     st = dict(R.BASE)
     st.update(spec["child"])
     kids = spec.get("child_tickers")
+    if spec.get("three_levels"):
+        # the child is itself a strategy of strategies: it rotates between two grandchildren on
+        # their own price histories, so one of them is unfunded for part of the run
+        g1 = bt.Strategy("g1", R.stack(st, idx), ["a", "b"])
+        g2 = bt.Strategy("g2", [A.RunWeekly(), A.SelectThese(["d", "b"]), A.WeighSpecified(d=0.75, b=0.25), A.Rebalance()], ["b", "d"])
+        mid = [A.RunWeekly(), A.SelectAll(), A.SelectMomentum(1, lookback=pd.DateOffset(days=4)), A.WeighEqually(), A.Rebalance()]
+        return bt.Strategy("s1", mid, [g1, g2])
     return bt.Strategy("s1", R.stack(st, idx), list(kids) if kids else None)
 
 
@@ -134,6 +142,11 @@ def specs(tier, seed):
                 for sc in scheds:
                     for mi, m in enumerate(modes):
                         out.append({"child": dict(body, gate=g), "schedule": sc, "integer": m[0], "fee": m[1], "spread": m[2], "capital": caps[mi % 3], "data": "d25", "alpha": "exact" if mi % 2 == 0 else "decimal", "parent_holds": mi % 2 == 0})
+    # three levels: the child rotates between two grandchildren by their price history
+    for g in ("daily", "weekly", "monthly"):
+        for sc in ("once", "rotate", "defund_refund", "never"):
+            for mi, m in enumerate(modes[:4]):
+                out.append({"child": {"gate": g, "select": "these", "weigh": "specified"}, "three_levels": True, "schedule": sc, "integer": m[0], "fee": m[1], "spread": m[2], "capital": 1e6, "data": "d25", "alpha": "exact" if mi % 2 == 0 else "decimal", "late": False})
     # the parent goes bankrupt in mid-run; the child keeps rebalancing on its own calendar
     for g in ("daily", "weekly", "weekly_end", "monthly"):
         for body in ({"select": "these", "weigh": "specified"}, {"select": "all", "weigh": "equal"}):
